@@ -433,6 +433,14 @@ func (w *world) checkProofGround(c, src *xchain, kind string, ph clienttypes.Hei
 		w.rec.Violate("C02", "unverified_height", kind, "%s accepted with proof height %s that the client of %s never verified", kind, ph, src.Cfg.Name)
 		return
 	}
+	// C07: a proof is honoured only once the configured delay has passed since the client processed that height
+	if d := w.proofDelay(c, src); d > 0 {
+		w.rec.Probe("proof.accepted_under_delay")
+		pt, ok := w.processedAt(c, src, ph.RevisionHeight)
+		if now := uint64(c.CurHdr.Time.UnixNano()); !ok || pt+d > now {
+			w.rec.Violate("C07", "proof_before_delay", kind, "%s accepted at block time %d with a proof at height %s that the client processed at %d (found=%v): the configured delay of %d ns has not passed", kind, now, ph, pt, ok, d)
+		}
+	}
 	got := src.StoreGetAt("xibc", []byte(key), int64(ph.RevisionHeight)-1)
 	if !bytesEq(got, want) {
 		w.rec.Violate("C02", "not_committed", kind+":"+dupShape(rm), "%s accepted but %s does not hold the expected hash under %s at version %d", kind, src.Cfg.Name, key, ph.RevisionHeight-1)
